@@ -23,7 +23,7 @@ GENERATED_ITEMS = []
 ASSUMPTIONS = [
     "user callbacks do not raise (an OSError from a nested reconnect() is caught by the callback); on_pre_connect/on_message/on_subscribe not installed",
     "no background thread (_thread is None): loop_start()/threaded use is C07's",
-    "one broker packet per loop_read(): no QoS>0 messages stored (max_packets = 1); inbound packets arrive whole (C05 owns fragmentation)",
+    "in the MODEL one broker packet per loop_read() (no QoS>0 messages stored, max_packets = 1); loop_read() calls that handle several packets - the socket replaced while handling the first, the end of the new connection read by the same call - are run on the implementation only and judged directly (multi_packet_oracle: exploration); inbound packets arrive whole (C05 owns fragmentation)",
     "partial writes are of the shape all-but-the-last-byte (C06 owns general partial writes); keepalive timing is an input (C08 owns the clock)",
     "the result code returned by publish() is not compared when a callback called reconnect() during that publish() (per-message results: C01/C07)",
     "exclusions of the partial theorems, each an open finding: D on_socket_open does not call reconnect() (F-C10k); R on_socket_close/unregister_write call no disconnect()/reconnect(), register_write no reconnect(); "
@@ -32,11 +32,104 @@ ASSUMPTIONS = [
 ]
 
 
+def multi_packet_oracle(out):
+    """loop_read() handles up to len(_out_messages) + len(_in_messages) packets per call.  The connection model reads one
+    packet per call (no QoS>0 messages are stored there), so histories in which ONE loop_read() call (a) handles a packet
+    that makes the library or a callback replace the socket and then (b) reads the end of the NEW connection are run on the
+    implementation only and judged by the extracted checkers c10_*_ok (exploration, not proof).  Found necessary by seeded
+    change S-C10-3 (the per-iteration socket snapshot of loop_read hoisted out of the loop)."""
+    import collections
+    import paho.mqtt.client as mqtt
+    from vlib import impl
+    endings = [("eof",), ("connack", 5), ("unknown",), ("rerr",)]
+    cases = []
+    for proto in (4, 5):
+        for api in (1, 2):
+            for stored in (2, 3):
+                for trigger in ("downgrade", "on_connect_reconnect"):
+                    if trigger == "downgrade" and proto != 4:
+                        continue
+                    for ending in endings:
+                        cases.append((proto, api, stored, trigger, ending))
+    traces = []
+    for proto, api, stored, trigger, ending in cases:
+        cfg = {"proto": proto, "api": api, "sockcb": 0, "ext": 0, "depth": 1}
+        r = conn.Run(cfg)
+        c = r.c
+        for _ in range(stored):
+            c.publish("t", b"x", 1)                      # stored while offline: max_packets = stored
+        trace = [r.step(conn.norm_op(conn.O(("connect", True))))[0]]
+        # what the NEW socket will have waiting when it is created inside the handler
+        real_create = c._create_socket
+
+        def create(real_create=real_create, ending=ending, c=c):
+            s = real_create()
+            if len(r.socks) >= 2:
+                v5 = c._protocol == mqtt.MQTTv5
+                if ending[0] == "eof":
+                    s.eof = True
+                elif ending[0] == "rerr":
+                    s.recv_error = True
+                elif ending[0] == "connack":
+                    s.feed(impl.connack(rc=(0x87 if v5 else ending[1]), v5=v5))
+                else:
+                    s.feed(impl.pkt(0xF0))
+            return s
+        c._create_socket = create
+        if trigger == "downgrade":
+            op = conn.O(("read", "downgrade", True))
+        else:
+            # on_connect (site 0) calls reconnect(): the socket is replaced inside the CONNACK handler
+            op = conn.O(("read", "connack", 0), (), conn.scr_of(connect=[[3]]))
+        try:
+            trace.append(r.step(conn.norm_op(op))[0])
+        except Exception as e:                           # noqa: BLE001
+            out.notes.append(f"multi-packet oracle: scenario {proto, api, stored, trigger, ending} raised {e!r}")
+            continue
+        traces.append((cfg, trace, (proto, api, stored, trigger, ending)))
+        # direct judgement: the end of the new connection (fed by the harness and read by this very call) must have been
+        # acted upon - socket closed and released, exactly one on_disconnect after the new socket was opened
+        evs = trace[-1]
+        opened = [i for i, e in enumerate(evs) if e[0] == 0]
+        out.cases += 1
+        out.validated += 1
+        if len(r.socks) >= 2 and opened:
+            after = evs[opened[-1]:]
+            ndisc = sum(1 for e in after if e[0] == 7)
+            if c._sock is not None or not r.socks[-1].closed or ndisc != 1:
+                out.violations.append({"signature": "C10-multi-packet-loop-read",
+                                       "what": f"one loop_read() call (max_packets = {stored}) replaced the socket while handling its first packet ({trigger}) and read the end "
+                                               f"of the NEW connection ({ending[0]}): socket still held = {c._sock is not None}, fake socket closed = {r.socks[-1].closed}, "
+                                               f"on_disconnect calls for the new connection = {ndisc} (expected: released, closed, 1)",
+                                       "case": {"proto": proto, "api": api, "stored": stored, "trigger": trigger, "ending": list(ending)},
+                                       "impl_trace": trace})
+        else:
+            out.notes.append(f"multi-packet oracle: scenario {proto, api, stored, trigger, ending} did not replace the socket")
+    verdicts = conn.check_traces([(cfg, tr) for cfg, tr, _ in traces])
+    for (cfg, tr, what), v in zip(traces, verdicts):
+        out.stat("multi_packet_loop_read")
+        bad = [k for k in conn.C10_KEYS if not v[k]]
+        if bad:
+            out.violations.append({"signature": "C10-multi-packet-loop-read",
+                                   "what": f"one loop_read() call that handles several packets (max_packets = {what[2]}): the socket is replaced while "
+                                           f"handling the first ({what[3]}) and the new connection ends ({what[4][0]}) in the same call; "
+                                           f"checkers rejecting the implementation trace: {bad}",
+                                   "case": {"proto": what[0], "api": what[1], "stored": what[2], "trigger": what[3], "ending": list(what[4])},
+                                   "impl_trace": tr})
+
+
 def run(ctx, out):
     conn.standard_run(ctx, out, "C10")
+    multi_packet_oracle(out)
 
 
 def replay(payload):
+    if payload.get("signature") == "C10-multi-packet-loop-read":
+        from vlib.main import Outcome
+        o = Outcome()
+        multi_packet_oracle(o)
+        same = [v for v in o.violations if v["case"] == payload.get("case")]
+        return (not same), {"violations_now": len(o.violations), "this_case": same[:1]}
     return conn.replay_case(payload, "C10")
 
 
